@@ -8,8 +8,11 @@ cmd=$(grep -v '^#' SEED/demo_cmd.txt | grep -v '^$' | tail -1)
 echo "demo cmd: $cmd"
 echo "--- with change:"; (eval "$cmd") 2>&1 | grep -E "^(--- FAIL|FAIL|ok|PASS|panic)" | head -5
 files=$(git diff --name-only)
-git stash -q
+# (git stash is shared between worktrees: use a diff file instead)
+d=$(mktemp /tmp/vs-XXXXXX.diff)
+git diff > $d
+git apply -R $d
 echo "--- without change:"; (eval "$cmd") 2>&1 | grep -E "^(--- FAIL|FAIL|ok|PASS|panic)" | head -5
-git stash pop -q
+git apply $d; rm -f $d
 echo "--- changed files: $files"
 echo "--- baseline:"; VERIF_REPO=$W python3 /tmp/seedtools/baseline_cmp.py "$@" 2>&1 | tail -4
